@@ -24,7 +24,7 @@ echo "   exit $m (expected non-zero)"
 for id in $CHECKS; do
   echo "== check $id quick against the changed tree"
   s=$(date +%s)
-  VERIF_EVIDENCE_DIR=$W/evidence VERIF_REPO=$WT /verif/check.sh $id quick > $W/check$N.$id.log 2>&1; r=$?
+  VERIF_EVIDENCE_DIR=$W/evidence VERIF_REPO=$WT ${VERIF_ROOT:-/verif}/check.sh $id quick > $W/check$N.$id.log 2>&1; r=$?
   e=$(date +%s)
   echo "   $id exit=$r wall=$((e-s))s violations=$(grep -c '^VIOLATION' $W/check$N.$id.log)"
   grep -A6 -m1 '^VIOLATION' $W/check$N.$id.log | cut -c1-220
